@@ -24,4 +24,17 @@ func init() {
 		},
 		Components: libComponents, QuickMS: 25000, ThoroughMS: 900000,
 	}
+	cfgs["C12"] = &propCfg{
+		ID: "C12", Engine: "lib", Level: "exploration",
+		Rule: "case = (document; entry point in {Minify, Match, Bytes, String, Reader, Writer, ResponseWriter, Middleware, MiddlewareWithError}; partition of the input into consecutive chunks; consumer buffer sizes; HTTP header/URI/status shape; schedule of producer task, minifier goroutine and consumer). " +
+			"For the built-in inputs of <=10 bytes (<=12 in thorough) ALL 2^(n-1) compositions are run through every entry point (counter exhaustive_composition_cases), plus empty chunks; for corpus documents partitions are tape-drawn (1-byte, geometric, with empty chunks). Oracle: bytes and error equal the plain sequential reader->writer call of the same tree; output complete and goroutine finished at the event 'Close returned'; no write after Close; second Close nil; HTTP: no stale Content-Length, status forwarded, minifier chosen from Content-Type else mime.TypeByExtension(path.Ext(RequestURI)), pass-through when none. " +
+			"distinct = distinct (document, entry, chunks, buffers, HTTP shape, schedule hash); non-trivial = more than one chunk, or more than 3 scheduler steps, or a byte/string helper call.",
+		Assumptions: []string{
+			"reference = plain m.Minify of the same tree, run sequentially: a legitimate change of minifier output cannot raise an alarm",
+			"SimResponseWriter models only 'headers are frozen at the first WriteHeader or body Write' of net/http",
+			"all six real minifiers read their whole input before writing; the streaming stub minifier (text/x-stream) is what produces output-before-input-ends interleavings",
+			"error equality is by message text between the wrapper and the plain call of the same tree",
+		},
+		Components: libComponents, QuickMS: 25000, ThoroughMS: 900000,
+	}
 }
